@@ -354,6 +354,12 @@ func compressedKeyShape(c *ctx, fn *ssa.Function) (bool, string) {
 	for _, ret := range core.Returns(fn) {
 		v := core.Strip(ret.Results[0])
 		// idiom: paddedAppend(append(make(0,33), format), 32, X.Bytes())
+		if ok, why, handled := fixedBufferKey(fn, v); handled {
+			if !ok {
+				return false, why
+			}
+			continue
+		}
 		call, ok := v.(*ssa.Call)
 		if !ok {
 			return false, "unrecognised construction of the compressed key: " + descr(v)
@@ -483,4 +489,98 @@ func rightAlignPost(fn *ssa.Function) (bool, string) {
 func c18Fresh(c *ctx) {
 	const rule = "R18.4"
 	keyDataMutations(c, rule)
+}
+
+// fixedBufferKey: the second idiom of the compressed key — a 33-byte buffer made at once, byte 0 the
+// format, X written into bytes 1..32 either by X.FillBytes(b[1:]) (right-aligned by the library's
+// contract) or by copy(b[33-len(xb):], xb) with xb = X.Bytes(). copy(b[1:], X.Bytes()) left-aligns
+// a coordinate with leading zero bytes and is reported.
+func fixedBufferKey(fn *ssa.Function, v ssa.Value) (ok bool, why string, handled bool) {
+	n, isK, isMk := core.MadeSlice(v)
+	if !isMk || !isK || n != 33 {
+		return false, "", false
+	}
+	x := paramTerm(fn, 0)
+	isXBytes := func(t *T) bool { return t.Op == "call:Bytes" && len(t.Args) == 1 && t.Args[0].Key() == x.Key() }
+	formatOK := false
+	var place string
+	for _, b := range fn.Blocks {
+		for _, in := range b.Instrs {
+			switch u := in.(type) {
+			case *ssa.Store:
+				if ia, isIA := u.Addr.(*ssa.IndexAddr); isIA && core.Strip(ia.X) == v {
+					if k, isC := core.ConstInt(ia.Index); isC && k == 0 {
+						// format = 2, then |= 1 under isOdd(Y): the value or the branch it sits on depends on Y
+						w := core.NewDepWalker(fn, false)
+						w.Walk(u.Val)
+						for _, f := range core.FactsAt(u.Block()) {
+							if f.X != nil {
+								w.Walk(f.X)
+							}
+							if f.Y != nil {
+								w.Walk(f.Y)
+							}
+						}
+						if w.Out["param:1"] {
+							formatOK = true
+						}
+					}
+				}
+			case *ssa.Call:
+				var dst ssa.Value
+				var src *T
+				switch {
+				case core.CallIs(u, "(*math/big.Int).FillBytes"):
+					if core.TermOf(u.Call.Args[0]).Key() != x.Key() {
+						continue
+					}
+					dst = u.Call.Args[1]
+				default:
+					if bi, isB := u.Call.Value.(*ssa.Builtin); isB && bi.Name() == "copy" {
+						dst, src = u.Call.Args[0], core.TermOf(u.Call.Args[1])
+					} else {
+						continue
+					}
+				}
+				ds, isSl := core.Strip(dst).(*ssa.Slice)
+				if !isSl || core.Strip(ds.X) != v {
+					continue
+				}
+				if ds.High != nil {
+					if k, isC := core.ConstInt(ds.High); !isC || k != 33 {
+						place = "X is written into " + descr(ds) + ", not into bytes 1..32"
+						continue
+					}
+				}
+				if src == nil {
+					// FillBytes(b[1:]): zero-extended big-endian into exactly 32 bytes
+					if k, isC := core.ConstInt(ds.Low); isC && k == 1 {
+						place = "ok"
+					} else {
+						place = "FillBytes does not fill bytes 1..32"
+					}
+					continue
+				}
+				if !isXBytes(src) {
+					continue
+				}
+				lo := core.TermOf(ds.Low)
+				if lo.Op == "bin-" && constIs(lo.Args[0], 33) && lo.Args[1].Op == "call:len" && isXBytes(lo.Args[1].Args[0]) {
+					place = "ok"
+				} else {
+					place = "X.Bytes() is copied at offset " + descr(ds.Low) + ", not right-aligned at 33−len(X.Bytes()): a coordinate with leading zero bytes is encoded wrongly (left-aligned), and with it the HMAC input, the fingerprint and the serialised key"
+				}
+			}
+		}
+	}
+	if !formatOK {
+		return false, "byte 0 of the key buffer does not depend on the parity of Y", true
+	}
+	if place == "" {
+		return false, "the X coordinate is never written into the 33-byte key buffer", true
+	}
+	if place != "ok" {
+		return false, place, true
+	}
+	return true, "", true
 }
